@@ -35,6 +35,8 @@ def run(ctx):
     res.rule("C15-R3", "conversion plumbing (/verif/spec/plumbing.json): each converted attribute depends on the listed TECMP getter and on no other TECMP getter")
     res.rule("C15-R4", "TECMP wire layout: C12's position/size rules over TECMP::CmpHeader and the four TECMP payload headers")
     res.rule("C15-R5", "one packet per bus-status entry: the entry loop pushes one payload per iteration and advances by the 12-byte entry size from offset 12")
+    res.rule("C15-R7", "the converters of the supported kinds (CAN, CAN-FD, LIN, capture-module status, bus status) return a packet on every path: "
+                        "unsupported or malformed input is rejected before conversion, never inside it")
     res.not_decided += ["value equality of converted fields for every TECMP frame",
                         "R6 (malformed input yields no packet, not a crash) is C02's bounds/null obligations restricted to tecmp_*.cpp and is reported by C02"]
     # ---- R1
@@ -139,6 +141,20 @@ def run(ctx):
         res.check(got == srcs, "C15-R3", "version-string:%s" % fname.split("::")[-1], f.loc, "built from %s in that order" % [s.split("::get")[-1] for s in srcs],
                   "%s is built from %s, expected %s" % (fname, got, srcs))
 
+    # ---- R7 converters of supported kinds produce a packet on every path (rejecting is the decoder's job)
+    for fname in sorted(spec["tecmp_payload"]):
+        f = fb.fn(fname)
+        bad = None
+        for p in paths.enumerate_paths(f):
+            r = p.returns()
+            if r is None:
+                continue
+            e = strip_all_casts(r["e"])
+            if e.get("null") or all(x.get("null") or x.get("k") in ("construct", "cast") for x in walk(r["e"])):
+                bad = (r, p.atoms[-1] if p.atoms else None)
+        res.check(bad is None, "C15-R7", "always-converts:%s" % fname.split("::")[-1], f.loc, "returns a packet on every path",
+                  "%s returns no packet when `%s`: a well-formed message of a supported kind yields nothing" %
+                  (fname, ("%s %s %s" % (bad[1][1], bad[1][2], bad[1][3]) if bad and bad[1] and bad[1][0] == "cmp" else (bad[1][1] if bad and bad[1] else ""))))
     # ---- R4 layouts
     obs, _ = accessors.analyse(fb, ctx.spec("layout.json"))
     for o in obs:
